@@ -4,6 +4,7 @@
 package vcodec
 
 import (
+	"bytes"
 	"errors"
 	"fmt"
 	"math"
@@ -37,7 +38,23 @@ type ShortTagMsg struct {
 	Tag string
 }
 
+// BytesMsg carries a raw byte payload: a decoder that hands out sub-slices of a reused read buffer
+// instead of copies would let a later frame overwrite it.
+type BytesMsg struct {
+	ID string
+	B  []byte
+}
+
 func init() {
+	vivid.RegisterCustomMessage[*BytesMsg]("verifBytesMsg",
+		func(message any, r *messages.Reader, codec messages.Codec) error {
+			m := message.(*BytesMsg)
+			return r.ReadInto(&m.ID, &m.B)
+		},
+		func(message any, w *messages.Writer, codec messages.Codec) error {
+			m := message.(*BytesMsg)
+			return w.WriteFrom(m.ID, m.B)
+		})
 	vivid.RegisterCustomMessage[*ShortTagMsg]("verifShortTagMsg",
 		func(message any, r *messages.Reader, codec messages.Codec) error {
 			m := message.(*ShortTagMsg)
@@ -242,6 +259,7 @@ func Corpus() map[string][]any {
 	}
 	c["clusterSingletonForwardedMessage"] = append(c["clusterSingletonForwardedMessage"], cluster.VerifSingletonForwarded(nil, new(vivid.OnLaunch), "1.2.3.4:5", "/p"))
 	c["verifCustomMsg"] = []any{&CustomMsg{}, &CustomMsg{N: math.MinInt32, T: Strings[3]}}
+	c["verifBytesMsg"] = []any{&BytesMsg{}, &BytesMsg{ID: "b", B: []byte{0, 1, 2, 255}}, &BytesMsg{ID: Strings[3], B: bytes.Repeat([]byte{7}, 5000)}}
 	c["verifShortTagMsg"] = []any{&ShortTagMsg{}, &ShortTagMsg{Tag: "t"}, &ShortTagMsg{Tag: strings.Repeat("T", 255)}}
 	return c
 }
